@@ -4,12 +4,15 @@ S(e) == [kind |-> "send", entry |-> e, fault |-> "none"]
 SF(e, f) == [kind |-> "send", entry |-> e, fault |-> f]
 R == [kind |-> "recv", entry |-> "-", fault |-> "none"]
 RF == [kind |-> "recv", entry |-> "-", fault |-> "deliver"]
+RR == [kind |-> "recvreply", entry |-> "top", fault |-> "none"]
 RU == [kind |-> "recv", entry |-> "-", fault |-> "undecodable"]
 \* C11: two application threads (one sends twice) and the keep-alive thread entering below the top
 T2 == {"a", "b"}
 T3 == {"a", "b", "c"}
 JobsC11a == [a |-> << S("top"), S("top") >>, b |-> << S("mid") >>]
 JobsC11b == [a |-> << S("top") >>, b |-> << S("mid") >>, c |-> << S("top") >>]
+\* the network thread answers an incoming stanza from within its delivery while application threads send
+JobsC11d == [a |-> << S("top"), S("mid") >>, b |-> << RR, R >>]
 JobsC11c == [a |-> << S("top"), S("mid") >>, b |-> << S("mid"), S("top") >>, c |-> << R, R >>]
 \* C12: a failing send / receive at every site, then follow-up work from the same and another thread
 JobsC12a == [a |-> << SF("top", "coder"), S("top") >>, b |-> << S("mid") >>]
